@@ -432,6 +432,33 @@ Theorem C18_generated_bad_letter : forall (hl vl : Z) (p q t : R) (x : arr R), ~
   @k_corner_2d_wrap_u NumR hl vl p t x = Err ValueError.
 Proof. exact wrap_bad_letter. Qed.
 
+(* what holds of the two defective flows (`_partial`, KNOWN FINDINGS), about the generated public wrappers *)
+Theorem C18_generated_shear_partial : forall (hl vl : Z) (rate t : R) (x : arr R) i j,
+  letter6_ok hl -> letter6_ok vl ->
+  @wrapper_indices NumR 0 (fold_case hl) (fold_case vl) [rate] = Ok (i, j) ->
+  exists a G, @k_simple_shear_2d_wrap_u NumR hl vl rate t x = Ok a /\
+              @k_simple_shear_2d_wrap_L NumR hl vl rate t x = Ok G /\
+    (forall k, (k < 3)%nat -> a k = shear_field i j rate x k) /\
+    (forall k m, (k < 3)%nat -> (m < 3)%nat ->
+       exists J, is_derive (fun s => shear_field i j rate (upd x m s) k) (x m) J /\
+                 G (3 * k + m)%nat = 2 * J) /\
+    G 0%nat + G 4%nat + G 8%nat = 0.
+Proof. exact gen_shear_partial. Qed.
+
+Theorem C18_generated_cell_partial : forall (hl vl : Z) (u d t : R) (x : arr R) i j,
+  letter6_ok hl -> letter6_ok vl ->
+  @wrapper_indices NumR 1 (fold_case hl) (fold_case vl) [u; d] = Ok (i, j) ->
+  in_cell d (x i) (x j) ->
+  exists a G, @k_cell_2d_wrap_u NumR hl vl u d t x = Ok a /\
+              @k_cell_2d_wrap_L NumR hl vl u d t x = Ok G /\
+    (forall k, (k < 3)%nat -> a k = cell_field i j u d x k) /\
+    (forall k m, (k < 3)%nat -> (m < 3)%nat -> k <> j ->
+       is_derive (fun s => cell_field i j u d (upd x m s) k) (x m) (G (3 * k + m)%nat)) /\
+    is_derive (fun s => cell_field i j u d (upd x i s) j) (x i) (G (3 * j + j)%nat) /\
+    is_derive (fun s => cell_field i j u d (upd x j s) j) (x j) (G (3 * j + i)%nat) /\
+    (forall m, (m < 3)%nat -> m <> i -> m <> j -> G (3 * j + m)%nat = 0).
+Proof. exact gen_cell_partial. Qed.
+
 (* the full statement of the property for the corner flow, about the generated public wrappers *)
 Theorem C18_generated_corner_grad_is_jacobian : forall (hl vl : Z) (U t : R) (x : arr R) i j,
   letter6_ok hl -> letter6_ok vl ->
